@@ -8,7 +8,8 @@ gen:   a small abstract interpreter (ast, fail closed) runs AngularGrid.__init__
        Coulomb row of cfg_src.  _generate_atomic_grid / get_shell_grid are checked (not modelled) for in-place
        writes into, or returned aliases of, the angular grid's arrays.  In rtransform.py the three classes with an
        inferred scale are checked for "set_maximum_parameter_b assigns only when b is None; no other method writes
-       self.*" and the table of methods that call it is extracted -> `tcfg_src`.
+       self.*"; the table of methods that call it and the table of methods whose result depends on the scale (they
+       read self.b / self._b directly or through other methods of the object) are extracted -> `tcfg_src`.
 prove: coq/C19/*.v (generic theorems over every aliasing configuration and every history; instance theorems about
        cfg_src / tcfg_src; refutations for the pinned configuration; the repaired configuration).
 tie:   history correspondence.  Random API histories (constructions with cache on/off across methods/degrees,
@@ -19,7 +20,9 @@ tie:   history correspondence.  Random API histories (constructions with cache o
        shell clean-or-not) and the memory-sharing structure (np.shares_memory) is recorded; the whole trace is
        compared with the model run under cfg_src inside Coq (vm_compute).  Transform objects get random call
        sequences with/without explicit b; the sequence of b values and raised errors is compared with the model,
-       and every result with a fresh object built with that b.
+       and every result with a fresh object built with that b.  Identical calls on one object must return identical
+       results (random sequences with repeated calls; directed sweep m1(x); m2(y); m1(x) over all classes, method pairs,
+       b inferred / explicit): a scale that is used must have been stored.
 search: per array, the shortest model history violating the property is found by bounded exhaustive search in
        Coq and replayed on the implementation (-> known findings / new violations).  A disagreement between
        implementation and model is minimised (ddmin, Coq as the model oracle) and extended by probing edits until
